@@ -59,3 +59,35 @@ def run(chk, d, binpath, input_bytes, K, tag, maxsteps=60000000, heap="3g", rtl_
         chk.violation("segment:%s:output" % tag, "run %s: the bytes written by the whole run differ from the definition's (per channel lengths %s vs %s)"
                       % (tag, {k: len(v) for k, v in want.items()}, {k: len(v) for k, v in got.items()}))
     return ok, steps, end
+
+
+def region_run(chk, d, binpath, datawords, input_bytes, K, tag, maxsteps=60000000, heap="3g"):
+    """C08's invariants on a long run (spec/IsaSegRegionV), joined over the segments.  -> dict of findings (drift grade: the caller decides)"""
+    import struct
+    inf = os.path.join(d, tag + ".in"); open(inf, "wb").write(bytes(input_bytes))
+    of = os.path.join(d, tag + ".segs.ndjson"); sc = os.path.join(d, tag + ".scratch"); os.makedirs(sc, exist_ok=True)
+    exe = vlib.build_cxx("seg_run", ["seg_run.cpp"], flags=["-O2"])
+    p = vlib.sh([exe, binpath, inf, str(K), of, sc, str(maxsteps)], timeout=3600)
+    lines = open(of).read().splitlines()
+    if p.returncode != 0 or not lines or '"end":true' not in lines[-1]:
+        raise vlib.MachineryError("seg_run failed (%d): %s" % (p.returncode, p.stderr.decode(errors='replace')[-500:]))
+    segs = lines[:-1]
+    b = open(binpath, "rb").read(); hdr = struct.unpack('<I', b[:4])[0]; sp0 = struct.unpack('<i', b[8:12])[0]
+    head = json.dumps({"input": list(input_bytes), "imgwords": hdr, "data": sorted(datawords)}, separators=(',', ':'))
+    nfiles = min(vlib.NCPU, len(segs)); per = (len(segs) + nfiles - 1) // nfiles
+    files = []
+    for k in range(nfiles):
+        part = segs[k * per:(k + 1) * per]
+        if part:
+            fn = os.path.join(d, "%s.rpart%d.ndjson" % (tag, k)); open(fn, "w").write(head + "\n" + "\n".join(part) + "\n"); files.append(fn)
+    outs = vlib.tlc_fold("IsaSegRegionV", "IsaSegRegionV.cfg", files, heap=heap, timeout=7200)
+    verd = [v for o, _ in outs for v in o]
+    if len(verd) != len(segs):
+        raise vlib.MachineryError("IsaSegRegionV returned %d verdicts for %d segments" % (len(verd), len(segs)))
+    fetched = set(); stored = set(); spmax = sp0; bad = []; steps = 0
+    for v in verd:
+        fetched |= set(v['fw']); stored |= set(v['sw']); spmax = max(spmax, v['spmax']); steps = max(steps, v['n'])
+        if v['bad']:
+            bad.append(v['bad'])
+    return {"instructions": sum(json.loads(s)['n'] for s in segs), "fetched_words": len(fetched), "stored_words": len(stored), "stored_and_fetched": sorted(fetched & stored)[:10],
+            "stack_pointer_above_load_time_value": spmax > sp0, "first_store_outside_data_and_free_memory": bad[:3], "sp0": sp0}
